@@ -76,7 +76,7 @@ def encode : Plan → ASchema → Value → Option Bytes
   | _, .bytes, .bytes bs => if bs.length < 2 ^ 63 then some (encBytes bs) else none
   | _, .string, .bytes bs => if bs.length < 2 ^ 63 then some (encBytes bs) else none
   | _, .fixed n, .bytes bs => if bs.length = n then some bs else none
-  | _, .enum n, .int i => if 0 ≤ i ∧ i < n then some (writeVarint i) else none
+  | _, .enum n, .int i => if 0 ≤ i ∧ i < n ∧ inRange 64 i then some (writeVarint i) else none
   | .node _ subs, .record _ fs, .record vs => encodeFields subs fs vs
   | .node blocks subs, .array items, .array vs =>
     match encodeItems subs items vs with
@@ -117,101 +117,127 @@ end
 
 /-! ### Reference decoder (for the oracle): decodes one datum of schema `s`, returns the rest -/
 
+/-- result of the reference decoder: a datum and the remaining bytes, "not a valid encoding", or
+step budget exhausted -/
+inductive Dec (α : Type) where
+  | ok (a : α)
+  | bad
+  | fuel
+  deriving Repr
+
+@[inline] def Dec.bind {α β : Type} (d : Dec α) (f : α → Dec β) : Dec β :=
+  match d with
+  | .ok a => f a
+  | .bad => .bad
+  | .fuel => .fuel
+
+instance : Monad Dec where
+  pure := .ok
+  bind := Dec.bind
+
+def Dec.toOption {α : Type} : Dec α → Option α
+  | .ok a => some a
+  | _ => none
+
+def decVarint (bs : Bytes) : Dec (Int × Bytes) :=
+  match readVarint bs with
+  | .ok p => .ok p
+  | .error _ => .bad
+
+def decTake (n : Nat) (bs : Bytes) : Dec (Bytes × Bytes) :=
+  match takeN n bs with
+  | some p => .ok p
+  | none => .bad
+
+/-- `bytes` / `string` datum, map key: non-negative long length, then the bytes -/
+def decLenBytes (bs : Bytes) : Dec (Bytes × Bytes) := do
+  let (n, r) ← decVarint bs
+  if n < 0 then .bad else decTake n.toNat r
+
+/-- block header of an array / map: the item count of the block (a negative count is followed by
+the block's byte size) -/
+def decBlockHeader (c : Int) (r : Bytes) : Dec (Nat × Bytes) :=
+  if c < 0 then do
+    let (_, r1) ← decVarint r
+    pure ((-c).toNat, r1)
+  else .ok (c.toNat, r)
+
 mutual
-def decode : Nat → ASchema → Bytes → Option (Value × Bytes)
-  | 0, _, _ => none
+def decode : Nat → ASchema → Bytes → Dec (Value × Bytes)
+  | 0, _, _ => .fuel
   | fuel + 1, s, bs =>
     match s with
-    | .null => some (.null, bs)
+    | .null => .ok (.null, bs)
     | .boolean =>
       match bs with
-      | [] => none
-      | b :: r => if b = 0 then some (.bool false, r) else if b = 1 then some (.bool true, r) else none
-    | .int =>
-      match readVarint bs with
-      | .ok (i, r) => if inRange 32 i then some (.int i, r) else none
-      | .error _ => none
-    | .long =>
-      match readVarint bs with
-      | .ok (i, r) => some (.int i, r)
-      | .error _ => none
-    | .float => (readFixedBits 4 bs).map fun (b, r) => (.float b, r)
-    | .double => (readFixedBits 8 bs).map fun (b, r) => (.double b, r)
-    | .bytes | .string =>
-      match readVarint bs with
-      | .ok (n, r) => if n < 0 then none else (takeN n.toNat r).map fun (b, r') => (.bytes b, r')
-      | .error _ => none
-    | .fixed n => (takeN n bs).map fun (b, r) => (.bytes b, r)
-    | .enum n =>
-      match readVarint bs with
-      | .ok (i, r) => if 0 ≤ i ∧ i < n then some (.int i, r) else none
-      | .error _ => none
-    | .record _ fs => (decodeFields fuel fs bs).map fun (vs, r) => (.record vs, r)
-    | .array items => (decodeBlocks fuel false items bs).map fun (kvs, r) => (.array (kvs.map (·.2)), r)
-    | .map values => (decodeBlocks fuel true values bs).map fun (kvs, r) => (.map (kvs.map (·.1)) (kvs.map (·.2)), r)
-    | .union branches =>
-      match readVarint bs with
-      | .ok (i, r) =>
-        if i < 0 then none else
+      | [] => .bad
+      | b :: r => if b = 0 then .ok (.bool false, r) else if b = 1 then .ok (.bool true, r) else .bad
+    | .int => do
+      let (i, r) ← decVarint bs
+      if inRange 32 i then pure (.int i, r) else .bad
+    | .long => do
+      let (i, r) ← decVarint bs
+      pure (.int i, r)
+    | .float => do
+      let (b, r) ← decTake 4 bs
+      pure (.float (getLE b), r)
+    | .double => do
+      let (b, r) ← decTake 8 bs
+      pure (.double (getLE b), r)
+    | .bytes | .string => do
+      let (b, r) ← decLenBytes bs
+      pure (.bytes b, r)
+    | .fixed n => do
+      let (b, r) ← decTake n bs
+      pure (.bytes b, r)
+    | .enum n => do
+      let (i, r) ← decVarint bs
+      if 0 ≤ i ∧ i < n then pure (.int i, r) else .bad
+    | .record _ fs => do
+      let (vs, r) ← decodeFields fuel fs bs
+      pure (.record vs, r)
+    | .array items => do
+      let (kvs, r) ← decodeBlocks fuel false items bs
+      pure (.array (kvs.map (·.2)), r)
+    | .map values => do
+      let (kvs, r) ← decodeBlocks fuel true values bs
+      pure (.map (kvs.map (·.1)) (kvs.map (·.2)), r)
+    | .union branches => do
+      let (i, r) ← decVarint bs
+      if i < 0 then .bad else
         match branches[i.toNat]? with
-        | none => none
-        | some b => (decode fuel b r).map fun (v, r') => (.union i.toNat v, r')
-      | .error _ => none
+        | none => .bad
+        | some b => do
+          let (v, r1) ← decode fuel b r
+          pure (.union i.toNat v, r1)
 
-def decodeFields : Nat → List ASchema → Bytes → Option (List Value × Bytes)
-  | 0, _, _ => none
-  | _ + 1, [], bs => some ([], bs)
-  | fuel + 1, s :: ss, bs =>
-    match decode fuel s bs with
-    | none => none
-    | some (v, r) =>
-      match decodeFields fuel ss r with
-      | none => none
-      | some (vs, r') => some (v :: vs, r')
+def decodeFields : Nat → List ASchema → Bytes → Dec (List Value × Bytes)
+  | 0, _, _ => .fuel
+  | _ + 1, [], bs => .ok ([], bs)
+  | fuel + 1, s :: ss, bs => do
+    let (v, r) ← decode fuel s bs
+    let (vs, r1) ← decodeFields fuel ss r
+    pure (v :: vs, r1)
 
 /-- blocks of an array (`keyed = false`) or map (`keyed = true`) -/
-def decodeBlocks : Nat → Bool → ASchema → Bytes → Option (List (Bytes × Value) × Bytes)
-  | 0, _, _, _ => none
-  | fuel + 1, keyed, s, bs =>
-    match readVarint bs with
-    | .error _ => none
-    | .ok (c, r) =>
-      if c = 0 then some ([], r) else
-      let hdr : Option (Nat × Bytes) :=
-        if c < 0 then
-          match readVarint r with
-          | .ok (_, r') => some ((-c).toNat, r')
-          | .error _ => none
-        else some (c.toNat, r)
-      match hdr with
-      | none => none
-      | some (n, r') =>
-        match decodeItems fuel keyed s n r' with
-        | none => none
-        | some (items, r'') =>
-          match decodeBlocks fuel keyed s r'' with
-          | none => none
-          | some (more, r''') => some (items ++ more, r''')
+def decodeBlocks : Nat → Bool → ASchema → Bytes → Dec (List (Bytes × Value) × Bytes)
+  | 0, _, _, _ => .fuel
+  | fuel + 1, keyed, s, bs => do
+    let (c, r) ← decVarint bs
+    if c = 0 then pure ([], r) else do
+      let (n, r1) ← decBlockHeader c r
+      let (items, r2) ← decodeItems fuel keyed s n r1
+      let (more, r3) ← decodeBlocks fuel keyed s r2
+      pure (items ++ more, r3)
 
-def decodeItems : Nat → Bool → ASchema → Nat → Bytes → Option (List (Bytes × Value) × Bytes)
-  | 0, _, _, _, _ => none
-  | _ + 1, _, _, 0, bs => some ([], bs)
-  | fuel + 1, keyed, s, n + 1, bs =>
-    let key : Option (Bytes × Bytes) :=
-      if keyed then
-        match readVarint bs with
-        | .ok (l, r) => if l < 0 then none else takeN l.toNat r
-        | .error _ => none
-      else some ([], bs)
-    match key with
-    | none => none
-    | some (k, r) =>
-      match decode fuel s r with
-      | none => none
-      | some (v, r') =>
-        match decodeItems fuel keyed s n r' with
-        | none => none
-        | some (items, r'') => some ((k, v) :: items, r'')
+def decodeItems : Nat → Bool → ASchema → Nat → Bytes → Dec (List (Bytes × Value) × Bytes)
+  | 0, _, _, _, _ => .fuel
+  | _ + 1, _, _, 0, bs => .ok ([], bs)
+  | fuel + 1, keyed, s, n + 1, bs => do
+    let (k, r) ← if keyed then decLenBytes bs else pure ([], bs)
+    let (v, r1) ← decode fuel s r
+    let (items, r2) ← decodeItems fuel keyed s n r1
+    pure ((k, v) :: items, r2)
 end
 
 end Avro
